@@ -140,6 +140,103 @@ Proof.
 Qed.
 End MstdpetParts.
 
+(* ---- triplet STDP over whole runs: the post-triggered term (pair + triplet contribution, magnitudes) is potentiating
+   iff the PAIR rate lr_post is >= 0 (the triplet rate enters by absolute value), the pre-triggered one iff lr_pre >= 0 *)
+Section TripletParts.
+Variable c : config RN.
+Variable k : nat.
+Hypothesis G : grid_ok c k.
+Hypothesis Ht : c_trainer RN c = TripletSTDP \/ c_trainer RN c = StableTripletSTDP.
+Hypothesis Hpost : c_lr_post RN c <> 0.
+Hypothesis Hpre0 : c_lr_pre RN c <> 0.
+Local Notation dt := (c_dt RN c).
+Local Notation m := (c_mode RN c).
+
+Definition triA (h : list (bool * bool)) (t : nat) : R :=
+  b2r (nth t (Qtr h) false) *
+  ((Rabs (c_lr_post RN c) + Rabs (c_lr_post3 RN c) * prev_sum m dt (c_tc_post_slow RN c) (Qtr h) t)
+   * partner_sum m dt (c_tc_pre RN c) (Ptr c k h) t).
+Definition triD (h : list (bool * bool)) (t : nat) : R :=
+  b2r (nth t (Ptr c k h) false) *
+  ((Rabs (c_lr_pre RN c) + Rabs (c_lr_pre3 RN c) * prev_sum m dt (c_tc_pre_slow RN c) (Ptr c k h) t)
+   * partner_sum m dt (c_tc_post RN c) (Qtr h) t).
+
+Lemma triA_prefix h pq t : (t < length h)%nat -> triA (h ++ [pq]) t = triA h t /\ triD (h ++ [pq]) t = triD h t.
+Proof.
+  intros Hl. unfold triA, triD. rewrite Ptr_snoc, Qtr_snoc.
+  rewrite !app_nth1 by (rewrite ?Ptr_length, ?Qtr_length; exact Hl).
+  rewrite !partner_sum_snoc by (rewrite ?Ptr_length, ?Qtr_length; exact Hl).
+  rewrite !prev_sum_snoc by (rewrite ?Ptr_length, ?Qtr_length; lia). split; reflexivity.
+Qed.
+
+Lemma partials_triplet h0 pq :
+  let h := h0 ++ [pq] in
+  partials RN c k (state_of c k (rev h)) = (triA h (length h0), triD h (length h0)).
+Proof.
+  intros h.
+  pose proof (grid_syn c k G) as Hsyn. pose proof (grid_pre c k G) as Hp. pose proof (tri c Ht) as Htri.
+  destruct (grid_pre_slow c k G) as (Hs1 & Hs2 & Hs3).
+  unfold partials.
+  destruct Ht as [E | E]; rewrite E; cbv zeta;
+  rewrite st_tr_pre, st_tr_post, st_spike_pre, st_spike_post by exact Hsyn;
+  rewrite (st_tr_pre_slow c k Hsyn _ Htri), (st_tr_post_slow c k _ Htri);
+  rewrite (read_trace c k (proj1 G)) by (intros E'; apply Hp; exact E');
+  rewrite (read_spike c k) by (intros E'; apply Hp; exact E');
+  rewrite (read_slow c k (proj1 G)) by assumption;
+  rewrite (rd_small _ _ _ 1) by assumption; rewrite nth_tvals;
+  rewrite !map_rev;
+  change (hd (zero RN) (tvals (mo c) (d_post c) (amp_post RN c) (rev (map snd h))))
+    with (V (mo c) (d_post c) (amp_post RN c) (rev (map snd h)));
+  unfold mo, d_pre, d_post, d_pre_slow, d_post_slow, h;
+  rewrite pre_trace_now, post_trace_now, pre_spike_now, post_spike_now, pre_trace_prev, post_trace_prev;
+  unfold amp_pre, amp_post, amp_pre_slow, amp_post_slow, lr_post3_abs, lr_pre3_abs, is_stable; rewrite E; cbn [fst snd]; rn_simpl;
+  rewrite (b2t_RN (nth (length h0) (Ptr c k (h0 ++ [pq])) false));
+  rewrite (b2t_RN (nth (length h0) (Qtr (h0 ++ [pq])) false));
+  unfold triA, triD;
+  set (PSa := partner_sum m dt (c_tc_pre RN c) _ _); set (PSb := partner_sum m dt (c_tc_post RN c) _ _);
+  set (Ya := prev_sum m dt (c_tc_post_slow RN c) _ _); set (Xa := prev_sum m dt (c_tc_pre_slow RN c) _ _);
+  set (qa := b2r _); set (pa := b2r _).
+  - f_equal.
+    + transitivity (qa * ((Rabs (c_lr_post RN c) + (Rabs (c_lr_post RN c) * Rabs (Rabs (c_lr_post3 RN c) / c_lr_post RN c)) * Ya) * PSa));
+        [ring|]. rewrite abs_ratio by assumption. reflexivity.
+    + transitivity (pa * ((Rabs (c_lr_pre RN c) + (Rabs (c_lr_pre RN c) * Rabs (Rabs (c_lr_pre3 RN c) / c_lr_pre RN c)) * Xa) * PSb));
+        [ring|]. rewrite abs_ratio by assumption. reflexivity.
+  - f_equal; ring.
+Qed.
+
+Definition tpos_t (h : list (bool * bool)) (t : nat) : R :=
+  ind (nonneg RN (c_lr_post RN c)) * triA h t + ind (nonneg RN (c_lr_pre RN c)) * triD h t.
+Definition tneg_t (h : list (bool * bool)) (t : nat) : R :=
+  ind (negb (nonneg RN (c_lr_post RN c))) * triA h t + ind (negb (nonneg RN (c_lr_pre RN c))) * triD h t.
+
+Lemma triplet_parts_steps h :
+  sum_fst (outs_from c k [] (nosig h)) = sum_steps (length h) (tpos_t h) /\
+  sum_snd (outs_from c k [] (nosig h)) = sum_steps (length h) (tneg_t h).
+Proof.
+  induction h as [|pq h IH] using rev_ind; [split; reflexivity|]. destruct IH as [IH1 IH2].
+  unfold nosig in *. rewrite map_app. cbn [map].
+  rewrite (outs_from_snoc0 c k), sum_fst_app, sum_snd_app, IH1, IH2. cbn [sum_fst sum_snd snd].
+  rewrite app_length. cbn [length]. rewrite Nat.add_1_r. cbn [sum_steps].
+  rewrite (sum_steps_ext (length h) (tpos_t (h ++ [pq])) (tpos_t h))
+    by (intros t Hl; unfold tpos_t; destruct (triA_prefix h pq t Hl) as [A B]; rewrite A, B; reflexivity).
+  rewrite (sum_steps_ext (length h) (tneg_t (h ++ [pq])) (tneg_t h))
+    by (intros t Hl; unfold tneg_t; destruct (triA_prefix h pq t Hl) as [A B]; rewrite A, B; reflexivity).
+  rewrite (map_app fst), map_map. cbn [map fst]. rewrite map_id.
+  destruct (stdp_parts_none c k [state_of c k (rev (h ++ [pq]))]) as [E1 E2]. cbv zeta in E1, E2.
+  pose proof (partials_triplet h pq) as Hp. cbv zeta in Hp.
+  split; (apply f_equal2; [reflexivity|]); rewrite Rplus_0_r; (etransitivity; [first [exact E1 | exact E2]|]);
+    cbn [map]; rewrite !reduce_single, Hp; cbn [fst snd]; reflexivity.
+Qed.
+
+Theorem triplet_parts_run h :
+  let a := final_acc RN (run RN c k (init_batch RN 1) (inps1 (nosig h))) in
+  ov (fst a) = sum_steps (length h) (tpos_t h) /\ ov (snd a) = sum_steps (length h) (tneg_t h).
+Proof.
+  cbv zeta. rewrite (run_single c k). destruct (final_acc_sums (outs_from c k [] (nosig h))) as [F1 F2].
+  destruct (triplet_parts_steps h) as [S1 S2]. rewrite F1, F2. split; assumption.
+Qed.
+End TripletParts.
+
 (* ================================================================== B. trainer + updater *)
 (* Hebbian pair STDP with soft (multiplicative) bounds installed by upperbound / lowerbound: after any history the applied
    weight change is (w_max - w) x LTP - (w - w_min) x LTD with LTP the causal and LTD the anti-causal pair sum *)
